@@ -283,6 +283,51 @@ def defuse_program(rng, pid):
             "init": [], "blocks": blocks, "fn": {"name": "f", "in": [], "out": [r]}, "outs": [r]}
 
 
+def backward_pattern_program(rng, pid):
+    """directed family (C11, C02 forward+backward): v is defined by ONE statement of each kind the backward transformers
+    handle (select with the interesting value in the then- or the else-branch, x := k - x, x := y - x, +, -, * and / by small
+    constants, linear assignment, havoc), from an operand o restricted to -2..2; an assertion on v sits in a dominated
+    successor block and fails for some inputs only (e.g. only through the else value of the select)."""
+    v, o, w = rng.sample([1, 2, 3], 3)
+    vars_ = [{"n": n, "t": "int"} for n in ("x", "y", "z")]
+    le = lambda k, t=(): {"k": k, "t": [list(u) for u in t]}
+    pre = [{"op": "assume", "c": {"e": le(-2, [(1, o)]), "r": "le"}}, {"op": "assume", "c": {"e": le(-2, [(-1, o)]), "r": "le"}}]
+    k = rng.choice(["sel_then", "sel_else", "sel_else", "negself", "subself", "addk", "mulk", "divk", "lin", "lin2", "havoc"])
+    c = rng.randint(-1, 1)
+    if k in ("sel_then", "sel_else"):
+        big, small = le(rng.choice([3, 4, -3])), le(rng.randint(-1, 1), [(1, o)]) if rng.random() < 0.5 else le(rng.randint(-1, 1))
+        cond = {"e": le(-c, [(rng.choice([1, -1]), o)]), "r": rng.choice(["le", "lt", "eq"])}
+        dfn = [{"op": "select", "x": v, "c": cond, "e1": big if k == "sel_then" else small, "e2": small if k == "sel_then" else big}]
+    elif k == "negself":
+        dfn = [{"op": "assign", "x": v, "e": le(0, [(1, o)])}, {"op": "assign", "x": v, "e": le(rng.randint(-1, 2), [(-1, v)])}]
+    elif k == "subself":
+        dfn = [{"op": "assign", "x": v, "e": le(rng.randint(-1, 1))}, {"op": "arith", "f": "sub", "x": v, "y": o, "zk": 0, "z": v}]
+    elif k == "addk":
+        dfn = [{"op": "arith", "f": rng.choice(["add", "sub"]), "x": v, "y": o, "zk": 1, "z": rng.randint(-2, 2)}]
+    elif k == "mulk":
+        dfn = [{"op": "arith", "f": "mul", "x": v, "y": o, "zk": 1, "z": rng.choice([-2, -1, 2, 3])}]
+    elif k == "divk":
+        dfn = [{"op": "arith", "f": "sdiv", "x": v, "y": o, "zk": 1, "z": rng.choice([-2, 2, 3])}]
+    elif k == "lin":
+        dfn = [{"op": "assign", "x": v, "e": le(rng.randint(-1, 1), [(rng.choice([1, -1, 2]), o)])}]
+    elif k == "lin2":
+        dfn = [{"op": "assign", "x": w, "e": le(rng.randint(-1, 1))}, {"op": "assign", "x": v, "e": le(0, [(1, o), (rng.choice([1, -1]), w)])}]
+    else:
+        dfn = [{"op": "havoc", "x": v}, {"op": "assume", "c": {"e": le(-3, [(1, v)]), "r": "le"}}]
+    asrt = {"op": "assert", "c": {"e": le(-rng.randint(-1, 2), [(rng.choice([1, 1, -1]), v)]), "r": rng.choice(["le", "le", "lt", "ne"])}, "id": 1}
+    shape = rng.choice(["next", "next", "same", "diamond"])
+    if shape == "same":
+        blocks = [{"succ": [2], "stmts": pre + dfn + [asrt]}, {"succ": [], "stmts": []}]
+    elif shape == "next":
+        blocks = [{"succ": [2], "stmts": pre + dfn}, {"succ": [3], "stmts": [asrt]}, {"succ": [], "stmts": []}]
+    else:
+        g = {"e": le(0, [(1, w)]), "r": "le"}
+        blocks = [{"succ": [2, 3], "stmts": pre + dfn}, {"succ": [4], "stmts": [{"op": "assume", "c": g}, asrt]},
+                  {"succ": [4], "stmts": [{"op": "assume", "c": negate(g)}]}, {"succ": [], "stmts": []}]
+    return {"id": pid, "shape": "bwdpat:%s:%s" % (k, shape), "vars": vars_, "kinds": ["int"] * 3, "nv": 3, "entry": 1, "exit": len(blocks),
+            "blocks": blocks, "init": []}
+
+
 def defuse_bool_program(rng, pid):
     """directed family (C17): like defuse_program for BOOLEAN statements: a boolean t defined from a constraint whose only
     use is one operand position of one later boolean statement (bool_assign_var, left / right operand of a boolean operation,
